@@ -9,6 +9,8 @@ from sa.rules import argstr, where
 BB = "source/byte_buf.c"
 
 DECIDED = [
+    "INIT-FIRST: a byte-buffer initialiser cleans its object up (failure paths) only after it wrote the whole object itself on that path",
+    "NARROW: no implicit integer conversion in byte_buf.c / string.c / file.c drops bits of a size (NUM at every narrowing conversion; shared with C16)",
     "BOUND: every explicit memory access in byte_buf.c (memcpy/memset/memchr/memcmp, subscripts, dereferences) through a buffer, cursor, table or fresh allocation is inside that object, for all lengths and capacities (NUM: relational abstract interpretation with no-wrap side conditions)",
     "NOWRAP: every value stored into a length/capacity field is an exact (non-wrapping) function of the entry values",
     "INV: every function that stores to len/capacity/buffer of a caller's byte_buf returns with len <= capacity",
@@ -223,9 +225,78 @@ def analyse(ctx, replace=None, only=None):
     secure_zero(R, P)
     cstr_scans(R, P)
     checked_results(R, P, fns)
+    init_first(R, P)
+    from rules import C16 as _c16
+    _c16.narrowing(R, P, files=("source/byte_buf.c", "source/string.c", "source/file.c"), floor=1, hooks=AwsHooks())
 
 
 VIEW_MIN = 90
+
+
+def init_first(R, P):
+    """INIT-FIRST: an initialiser of a byte buffer (a function with `init` in its name and a `struct aws_byte_buf *` parameter)
+    owns nothing of what the caller's object held before the call: on every path, the first thing that looks at the object -
+    in particular the clean-up on its failure paths - comes after the function itself wrote the whole object (zeroed it, assigned
+    it, or initialised it).  Otherwise a failed init wipes and releases whatever the stale fields point to."""
+    from sa.cfg import edges
+    CLEAN = {"aws_byte_buf_clean_up", "aws_byte_buf_clean_up_secure", "aws_byte_buf_secure_zero", "aws_byte_buf_reset"}
+    n = 0
+    for f in sorted((g for g in P.by_key.values() if getattr(g, "blocks", None) and "init" in g.name and any(g.file.endswith(x) for x in ("source/byte_buf.c", "source/file.c", "source/string.c"))), key=lambda g: (g.file, g.line)):
+        ps = [p_["n"] for p_ in f.params if f.unit.types[p_["t"]].get("ptr") and f.unit.types[p_["t"]].get("rec") == "aws_byte_buf" and not f.unit.types[p_["t"]].get("const")]
+        for pn in ps[:1]:
+            def names_p(node):
+                t = f.show(node).replace("(", "").replace(")", "").replace(" ", "")
+                while t.startswith("&*"):
+                    t = t[2:]
+                return t == pn or f.canon(t) == pn
+
+            def kind(e):
+                if e.kind == "call":
+                    c = e.node.get("callee") or ""
+                    a0 = RU.arg(f, e.node, 0) if e.node.get("a") else None
+                    if a0 is None or not names_p(a0):
+                        return None
+                    if c in CLEAN:
+                        return "clean"
+                    if c in ("memset", "__builtin_memset", "__builtin___memset_chk") or "byte_buf_init" in c or c == "aws_byte_buf_from_array" or c == "aws_byte_buf_from_empty_array":
+                        return "init"
+                if e.kind == "access" and e.mode == "w" and e.node["k"] == "un" and e.node["op"] == "deref" and names_p(e.node["a"][0]):
+                    return "init"
+                return None
+            evs = f.events()
+            cleans = [e for b in evs for e in evs[b] if kind(e) == "clean"]
+            if not cleans:
+                continue
+            entry = max(f.blocks)  # clang numbers the entry block highest
+            unin = {entry: True}
+            bad = []
+            work = [entry]
+            seen_out = {}
+            while work:
+                b = work.pop()
+                st = unin.get(b, False)
+                for e in evs.get(b, []):
+                    k = kind(e)
+                    if k == "clean" and st and e not in bad:
+                        bad.append(e)
+                    elif k == "init":
+                        st = False
+                if seen_out.get(b) == st:
+                    continue
+                seen_out[b] = st
+                for s_, _, _ in edges(f, b):
+                    if st and not unin.get(s_, False):
+                        unin[s_] = True
+                        work.append(s_)
+                    elif s_ not in seen_out:
+                        unin.setdefault(s_, False)
+                        work.append(s_)
+            R.fn(f)
+            for e in cleans:
+                n += 1
+                R.check(e not in bad, "INIT-FIRST", "%s:%s@%d" % (f.name, e.node.get("callee"), e.node.get("loc", [0])[0]), where(f, e), "the object was written by this initialiser on every path to its clean-up",
+                        "%s(%s) is reached on a path on which %s has not yet written *%s: a failed initialisation scrubs and releases whatever the caller's stale object pointed to" % (e.node.get("callee"), pn, f.name, pn))
+    R.require(n >= 1, "no clean-up of the object under initialisation found in any byte-buffer initialiser (confirmed: s_byte_buf_init_from_file_impl)")
 
 
 def view_outputs(R, num, st, f, r, ptypes, vstat):
@@ -506,6 +577,8 @@ def secure_zero(R, P):
 
 
 MUTANTS = [
+    {"name": "init-from-file-cleans-up-what-it-never-wrote", "file": "source/file.c", "expect": "INIT-FIRST", "old": "    AWS_ZERO_STRUCT(*out_buf);\n    FILE *fp = aws_fopen(filename, \"rb\");", "new": "    FILE *fp = aws_fopen(filename, \"rb\");"},
+    {"name": "reserve-smart-takes-the-32-bit-maximum", "file": "source/byte_buf.c", "expect": "NARROW", "old": "size_t new_capacity = aws_max_size(requested_capacity, double_current_capacity);", "new": "size_t new_capacity = aws_max_u32(requested_capacity, double_current_capacity);"},
     {"name": "overflow-verdict-parked-in-a-variable", "file": BB, "expect": "NOWRAP",
      "old": "        if (aws_mul_u64_checked(val, base, &val)) {\n            return aws_raise_error(AWS_ERROR_OVERFLOW_DETECTED);\n        }\n\n        if (aws_add_u64_checked(val, cval, &val)) {\n            return aws_raise_error(AWS_ERROR_OVERFLOW_DETECTED);\n        }\n    }",
      "new": "        overflow_seen = aws_mul_u64_checked(val, base, &val) || aws_add_u64_checked(val, cval, &val);\n    }\n    if (overflow_seen) {\n        return aws_raise_error(AWS_ERROR_OVERFLOW_DETECTED);\n    }",
